@@ -58,12 +58,12 @@ class Goals:
         """lib (computed by the library) must equal ref (the oracle) for all parameter values"""
         self._reg(name, key)
         if self.symbolic:
-            self.problem.eq(name, lib, ref)
+            self.problem.eq(name, lib, ref, meta=dict(tol=tol or REL_TOL))
             self.libs[name] = lib
         else:
             lib, ref = float(lib), float(ref)
             t = tol or REL_TOL
-            ok = abs(lib - ref) <= t * (abs(lib) + abs(ref)) + ABS_TOL
+            ok = abs(lib - ref) <= t * (abs(lib) + abs(ref)) + (ABS_TOL if t >= 1e-9 else 1e-300)
             self.evals[name] = dict(kind="eq", lib=lib, ref=ref, ok=bool(ok))
 
     def twin(self, name, lib, wrong_ref):
